@@ -51,6 +51,8 @@ def cases(tier):
         for y in range(4):
             yield {"k": "lattice", "x": x, "y": y}
     yield {"k": "modes"}
+    for cfg in ("alone", "ro-opened-first", "rw-opened-first", "rw-opened-later"):
+        yield {"k": "ro-shared", "cfg": cfg}
     yield {"k": "ro-reads"}
     for seed in ["rich", "mini"] + (["light", "block"] if tier == "thorough" else []):
         ops = [op for op in O.enabled(explorer.seed_model(seed), {"delete_modes": True}) if op[0] != "reopen"]
@@ -481,7 +483,86 @@ def run_ro_reads(case, r):
     env.rm(path)
 
 
+RO_MUTATORS = [
+    ("create_block", lambda f: f.create_block("made-by-ro", "t")),
+    ("create_section", lambda f: f.create_section("made-by-ro", "t")),
+    ("set-definition", lambda f: setattr(f.blocks["blk"], "definition", "set-by-ro")),
+    ("write-data", lambda f: f.blocks["blk"].data_arrays["sig"].__setitem__((0, 0), 99.0)),
+    ("append-data", lambda f: f.blocks["blk"].data_arrays["sig"].append(np.array([[7.0, 8.0]]), axis=0)),
+    ("link", lambda f: f.blocks["blk"].groups["grp"].sources.append(f.blocks["blk"].sources["src"])),
+    ("unlink", lambda f: f.blocks["blk"].groups["grp"].data_arrays.__delitem__(0)),
+    ("delete-array", lambda f: f.blocks["blk"].data_arrays.__delitem__("sig")),
+    ("delete-block", lambda f: f.blocks.__delitem__("blk")),
+    ("property-values", lambda f: setattr(f.sections["sec"].props["p"], "values", [5, 6])),
+    ("force-timestamp", lambda f: f.blocks["blk"].force_updated_at(12345)),
+]
+
+
+def run_ro_shared(case, r):
+    """a read-only handle while OTHER handles to the same file are open in the same process"""
+    cfg = case["cfg"]
+    path = env.fresh_path("c11sh_")
+    s = O.Session(path=path, build=explorer.SEEDS["mini"])
+    s.f.close()
+    for mname, mut in RO_MUTATORS:
+        others = []
+        ro = None
+        try:
+            if cfg == "rw-opened-first":
+                others.append(nix.File.open(path, nix.FileMode.ReadWrite))
+            elif cfg == "ro-opened-first":
+                others.append(nix.File.open(path, nix.FileMode.ReadOnly))
+            h0 = sha(path)
+            try:
+                ro = nix.File.open(path, nix.FileMode.ReadOnly)
+            except Exception as e:  # noqa
+                # refusing the second open protects the file as well
+                r.outcomes.add("shared:%s:open-refused-%s" % (cfg, type(e).__name__))
+                r.evals += 1
+                continue
+            if cfg == "rw-opened-later":
+                try:
+                    others.append(nix.File.open(path, nix.FileMode.ReadWrite))
+                    r.outcomes.add("shared:rw-opened-later:accepted")
+                except Exception as e:  # noqa
+                    r.outcomes.add("shared:rw-opened-later:refused-%s" % type(e).__name__)
+            w0 = walker.walk(ro, core=True)
+            r.evals += 1
+            r.nontrivial += 1
+            try:
+                mut(ro)
+                exc = None
+            except Exception as e:  # noqa
+                exc = e
+            r.transitions += 1
+            r.outcomes.add("shared:%s:%s" % (cfg, "accepted" if exc is None else type(exc).__name__))
+            changed = walker.walk(ro, core=True) != w0
+            ro.close()
+            ro = None
+            for o in others:
+                o.close()
+            others = []
+            if exc is None or changed or sha(path) != h0:
+                r.viol("C11|read-only|%s|mutator-%s" % (cfg, "accepted" if exc is None else "refused-but-file-changed"),
+                       "with %s, %s through the ReadOnly handle %s; state changed: %r; bytes changed: %r" % (
+                           cfg.replace("-", " "), mname, "succeeded" if exc is None else "raised %s" % type(exc).__name__,
+                           changed, sha(path) != h0), {"mutator": mname})
+                # restore for the next mutator
+                env.rm(path)
+                s = O.Session(path=path, build=explorer.SEEDS["mini"])
+                s.f.close()
+        finally:
+            if ro is not None:
+                env.safe_close(ro)
+            for o in others:
+                env.safe_close(o)
+    env.rm(path)
+
+
 def run_case(case):
     r = R()
+    if case["k"] == "ro-shared":
+        run_ro_shared(case, r)
+        return r
     {"ro-reads": run_ro_reads, "lattice": run_lattice, "modes": run_modes, "ro-ops": run_ro_ops, "ro-setters": run_ro_setters}[case["k"]](case, r)
     return r
